@@ -85,7 +85,7 @@ let build_state (kind : string) (d : (string * string) list) (xo : coq_N) : st =
     let upd = if g "upd" = "-" then [] else L.map (fun t -> match S.split_on_char ':' t with
         | [i; v] -> (n_of_string i, L.hd (dec_vals v)) | _ -> failwith "upd") (S.split_on_char ',' (g "upd")) in
     Raw { M.r_sz = sz; r_native = (kind <> "bytesn"); r_xo = xo; r_disk = dec_vals (g "disk"); r_stored = n_of_string (g "sl");
-          r_pushed = pushed; r_holes = holes; r_upd = upd; r_updroot = (g "ur" = "1") }
+          r_pushed = pushed; r_holes = holes; r_upd = upd }
   else
     let pages = if g "pages" = "-" then [] else L.map (fun t -> match S.split_on_char ':' t with
         | [raw; start; bytes; vals] -> { P.pg_raw = (raw = "1"); pg_start = n_of_string start; pg_bytes = n_of_string bytes; pg_vals = dec_vals vals }
